@@ -18,6 +18,10 @@ theorem gen_facts :
     Gen.Advertise.shutdownAwaitsInflight = true ∧ Gen.Advertise.shutdownChecksTerminate = true ∧
     Gen.Advertise.shutdownCalls_send = true := by decide
 
+/-- …and there is no other way out of the scheduler's loop: every `return` inside it is preceded
+    by that wait -/
+theorem gen_all_exits_await : Gen.Advertise.scheduleAllExitsAwait = true := by decide
+
 /-- invariant of the awaiting system -/
 structure Inv (s : ShState) : Prop where
   final_le : s.final ≤ 2
